@@ -40,6 +40,66 @@ MUTATORS = {
 }
 
 
+_mention_cache: dict = {}
+
+
+def _mentions(term, ids) -> bool:
+    """does the term contain one of the constants (given by AST id) free?"""
+    key = (term.get_id(), frozenset(ids))
+    if key in _mention_cache:
+        return _mention_cache[key][1]
+    seen, stack, hit = set(), [term], False
+    while stack:
+        t = stack.pop()
+        i = t.get_id()
+        if i in seen:
+            continue
+        seen.add(i)
+        if i in ids:
+            hit = True
+            break
+        if z3.is_quantifier(t):
+            stack.append(t.body())
+        elif z3.is_app(t):
+            stack.extend(t.children())
+    if len(_mention_cache) > 200000:
+        _mention_cache.clear()
+    _mention_cache[key] = (term, hit)  # the term is kept alive: ids are not reused
+    return hit
+
+
+def alpha_eq(a, b, memo=None) -> bool:
+    """structural equality of two terms modulo the NAMES of bound variables (z3 keeps binder names in the AST, and the
+    engine names binders with a global counter: the same clause evaluated twice gives two different ASTs)"""
+    if memo is None:
+        memo = {}
+    stack = [(a, b)]
+    while stack:
+        x, y = stack.pop()
+        ix, iy = x.get_id(), y.get_id()
+        if ix == iy or memo.get((ix, iy)):
+            continue
+        if z3.is_quantifier(x) or z3.is_quantifier(y):
+            if not (z3.is_quantifier(x) and z3.is_quantifier(y)):
+                return False
+            if x.is_forall() != y.is_forall() or x.is_lambda() != y.is_lambda() or x.num_vars() != y.num_vars():
+                return False
+            if any(not x.var_sort(k).eq(y.var_sort(k)) for k in range(x.num_vars())):
+                return False
+            stack.append((x.body(), y.body()))
+        elif z3.is_var(x) or z3.is_var(y):
+            if not (z3.is_var(x) and z3.is_var(y)) or z3.get_var_index(x) != z3.get_var_index(y) or not x.sort().eq(y.sort()):
+                return False
+        elif z3.is_app(x) and z3.is_app(y):
+            if not x.decl().eq(y.decl()) or x.num_args() != y.num_args():
+                return False
+            stack.extend(zip(x.children(), y.children()))
+        else:
+            return False
+        memo[(ix, iy)] = True
+    return True
+
+
 class FuncRef:
     """A python function/class resolved from the real module namespace."""
 
@@ -112,8 +172,22 @@ class Executor(ExprMixin, StmtMixin, LoopMixin):
     def oblige(self, st, goal, kind, label, node=None, expect_fail=False, info=None):
         goal = z3bool(goal)
         hyps = list(st.pc)
+        if self.qstack:
+            # facts of the path condition that mention the bound variables (comprehension filters, facts about the
+            # element, callee postconditions) were assumed INSIDE the quantifier: they belong under it, next to the guards
+            qids = {v.get_id() for vs, _ in self.qstack for v in vs}
+            inner = [h for h in hyps if _mentions(h, qids)]
+            if inner:
+                hyps = [h for h in hyps if not _mentions(h, qids)]
+                goal = z3.Implies(z3.And(*inner), goal)
         for vars_, guard in reversed(self.qstack):
             goal = z3.ForAll(vars_, z3.Implies(z3bool(guard), goal)) if vars_ else z3.Implies(z3bool(guard), goal)
+        if not expect_fail and z3.is_quantifier(goal):
+            # P |- P: a quantified goal that is literally one of the hypotheses (up to binder names) is closed here — the
+            # solvers would otherwise have to re-derive the formula from itself by instantiation
+            memo = {}
+            if any(z3.is_quantifier(h) and alpha_eq(goal, h, memo) for h in hyps):
+                goal = z3.BoolVal(True)
         name = f"{self.label_prefix}{self.fn_name}.{kind}.{label}"
         k = self._names.get(name, 0)
         self._names[name] = k + 1
@@ -191,7 +265,7 @@ class Executor(ExprMixin, StmtMixin, LoopMixin):
             for k in mro:
                 if name in k.__dict__:
                     raw = k.__dict__[name]
-                    kind = "static" if isinstance(raw, staticmethod) else "class" if isinstance(raw, classmethod) else "instance"
+                    kind = "static" if isinstance(raw, staticmethod) else "class" if isinstance(raw, classmethod) else "property" if isinstance(raw, property) else "instance"
                     if after is not None and f"{k.__qualname__}.{name}" in cs.methods:
                         return cs.methods[f"{k.__qualname__}.{name}"], "model"
                     key = f"{k.__module__}:{k.__qualname__}.{name}"
@@ -400,6 +474,11 @@ class Executor(ExprMixin, StmtMixin, LoopMixin):
                     root = root.value
                 if isinstance(root, ast.Name):
                     self.check_alias(root.id, st, node)
+                    # CPython evaluates a generator argument LAZILY: `xs.extend(g for g in src if g not in xs)` sees the
+                    # elements this very call has appended so far; the engine would evaluate it against the old value
+                    for a in node.args:
+                        if isinstance(a, ast.GeneratorExp) and any(isinstance(n, ast.Name) and n.id == root.id for n in ast.walk(a)):
+                            raise Unsupported(f"generator argument of {fnode.attr}() reads '{root.id}', the container being mutated (evaluated lazily by Python)", node)
                 nv, res = models.mutate(self, st, recv, fnode.attr, args, kwargs, node)
                 self.assign_target(fnode.value, nv, st, node, mutate=True)
                 self.assumptions_used.add("python-container-semantics")
@@ -638,6 +717,12 @@ class Executor(ExprMixin, StmtMixin, LoopMixin):
         """`implicit`: number of leading arguments that Python supplies itself (self / cls): they have no
         counterpart in `node.args` (matters for writing modified container arguments back)."""
         src = load_function(cc.target)
+        from .loops import is_generator_def
+
+        if is_generator_def(src.fdef):
+            if cc.modifies:
+                raise Unsupported("call of a generator function whose contract has `modifies`", node)
+            self.assumptions_used.add(f"generator {cc.key} is consumed eagerly (its contract describes the list of yielded values)")
         bound, missing = self.bind_args(src.fdef, args, kwargs, node)
         callee = Executor(cc, src)
         cst = State()
@@ -661,6 +746,11 @@ class Executor(ExprMixin, StmtMixin, LoopMixin):
         cst.env = dict(bound)
         callee.spec_mode = True
         ln = getattr(node, "lineno", 0)
+        # the callee's pre-state is the caller's CURRENT state: `fresh(x)` / old() in a requires clause refer to it
+        # (without this, `requires not fresh(a)` was evaluated against the caller's entry clock)
+        if cst.alloc is None:
+            cst.alloc = self.now(st)
+        callee.old_state = cst
         for i, r in enumerate(cc.requires):
             g = callee.clause(r, cst)
             self.oblige(st, g, "pre@callsite", f"{cc.key.split(':')[-1]}.{i}@L{ln}", node, info={"clause": r})
@@ -708,8 +798,19 @@ class Executor(ExprMixin, StmtMixin, LoopMixin):
         a_before, a_after = self.advance_clock(st)
         pre.alloc = a_before
         post.alloc = a_after
+        qvars = [v for vs, _ in self.qstack for v in vs]
+        if qvars:
+            # a call inside a comprehension / quantifier happens once PER binding of the bound variables
+            if cc.modifies:
+                raise Unsupported(f"call of {cc.key} (which has `modifies`) inside a comprehension / quantifier", node)
+            if any("fresh(" in e for e in cc.ensures.values()):
+                raise Unsupported(f"call of {cc.key} (which allocates) inside a comprehension / quantifier", node)
         if cc.returns is not None:
-            res = Val(cc.returns, fresh(cc.returns, "ret_" + cc.target.split(".")[-1]))
+            if qvars:
+                rf = z3.Function(fresh_name("ret_" + cc.target.split(".")[-1]), *[v.sort() for v in qvars], cc.returns.sort())
+                res = Val(cc.returns, rf(*qvars))  # the result is a function of the bound variables
+            else:
+                res = Val(cc.returns, fresh(cc.returns, "ret_" + cc.target.split(".")[-1]))
             self.assume_allocated(st, res)
         else:
             res = Val.const(None)
@@ -718,7 +819,15 @@ class Executor(ExprMixin, StmtMixin, LoopMixin):
         post.env["result"] = res
         post.pc = st.pc
         for nm, e in cc.ensures.items():
-            st.assume(z3bool(callee.clause(e, post)))
+            fact = z3bool(callee.clause(e, post))
+            pc_before = list(st.pc)
+            st.assume(fact)
+            if qvars and self.qouter:
+                # the state of the quantifier body is discarded when the quantifier is closed: the callee's postcondition,
+                # for every binding that reaches the call, is recorded in the enclosing state
+                qids = {v.get_id() for v in qvars}
+                ctx = [h for h in pc_before if _mentions(h, qids)]
+                self.qouter[0].assume(z3.ForAll(qvars, z3.Implies(z3.And(*ctx), fact) if ctx else fact))
         guard = z3.And(*active) if active else None
         # write back container parameters that were modified (value semantics)
         for m in cc.modifies:
